@@ -2110,8 +2110,18 @@ class FileSet:
         """
         if max_interval is not None:
             max_interval = to_timedelta(max_interval, numbers_as="seconds")
-            start = to_datetime(start) - max_interval
-            end = to_datetime(end) + max_interval
+            # The search period is widened by max_interval but cannot
+            # exceed the range of datetime objects:
+            start = datetime.min if start is None else to_datetime(start)
+            end = datetime.max if end is None else to_datetime(end)
+            try:
+                start -= max_interval
+            except OverflowError:
+                start = datetime.min
+            try:
+                end += max_interval
+            except OverflowError:
+                end = datetime.max
 
         files1 = list(
             self.find(start, end, filters=filters)
